@@ -295,7 +295,7 @@ def run(ctx):
             ctx.cov["traces_validated_against_impl"] += sum(len(r["obs"]) for r in part)
         if nbad > 5:
             ctx.broken.append(("correspondence: %d sequences disagree in total" % nbad, ""))
-    if ctx.broken and not ctx.findings and os.path.exists(os.path.join(verif.ROOT, "harness", "bin", "c06")):
+    if ctx.broken and not ctx.findings and os.path.exists(os.path.join(verif.HBIN, "c06")):
         # a proof or the tie broke but the standard run shows no violation: look harder
         ok, _ = ctx.harness_run("c06", ["-out", "search.jsonl", "-seed", ctx.seed + 1000, "-n", 30000, "-big", 200, "-alltrunc"],
                                 timeout=3000)
